@@ -16,6 +16,7 @@ import (
 	"encoding/json"
 	"fmt"
 	"math/rand"
+	"os"
 	"sort"
 	"strconv"
 	"strings"
@@ -41,6 +42,7 @@ const (
 	aprKeyTally   = "C12/tally-reset-approved-writes-time-out"
 	aprKeyRaceT   = "C12/verdict-races-timeout-double-outcome"
 	aprKeyRaceV   = "C12/verdict-races-verdict-double-outcome"
+	aprKeyStale   = "C12/verdict-racing-disconnect-leaves-approval-for-reused-counter"
 	aprDenyNumber = 7
 )
 
@@ -102,6 +104,14 @@ type aprVerdict struct {
 type aprWrite struct {
 	p         int
 	c         uint64
+	epoch     int                                 // which connection of the peer carried it (counters restart with every connection)
+	shape     string                              // full | pid | psel | pall | dsel | dele
+	data      *model.LoadControlLimitListDataType // the payload object the callbacks (and the data change event) see
+	digBefore string                              // digest of the feature's data before the write was injected
+	digAt     map[int]string                      // ... inside callback i, when the write was presented
+	gone      bool                                // the connection that carried it has been removed
+	dropped   bool                                // ... while the write had no outcome
+	afterDrop []string                            // what was observed for it after that
 	ack       bool
 	t0        time.Time
 	msgs      map[int]*api.Message // callback index -> the message it was handed
@@ -116,7 +126,18 @@ type aprWrite struct {
 }
 
 func (w *aprWrite) resolved() bool { return len(w.outcomes) > 0 }
-func (w *aprWrite) label() string  { return fmt.Sprintf("w%d", w.c) }
+func (w *aprWrite) name() string {
+	return fmt.Sprintf("write %d of peer %d (connection %d, %s)", w.c, w.p, w.epoch, w.shape)
+}
+
+// aprConn: one connection of a peer (same SKI, a fresh DeviceRemote, sender and counter space each time)
+type aprConn struct {
+	p, epoch int
+	wr       *aprWriter
+	rdev     api.DeviceRemoteInterface
+	writes   map[uint64]*aprWrite
+	closed   bool
+}
 
 type aprWorld struct {
 	id      string
@@ -124,10 +145,10 @@ type aprWorld struct {
 	nPeers  int
 	l       *spine.DeviceLocal
 	f       [2]api.FeatureLocalInterface
-	wr      [2]*aprWriter
-	rdev    [2]api.DeviceRemoteInterface
+	conn    [2]*aprConn // current connection of each peer (nil: never connected)
+	conns   []*aprConn  // all connections ever made
 	mu      sync.Mutex
-	writes  map[[2]uint64]*aprWrite
+	byData  map[*model.LoadControlLimitListDataType]*aprWrite
 	order   []*aprWrite
 	step    int
 	strange []string // observations that fit no write
@@ -140,16 +161,17 @@ func (w *aprWorld) HandleEvent(p api.EventPayload) {
 	}
 	for i := 0; i < w.nPeers; i++ {
 		if p.LocalFeature == w.f[i] {
-			d, _ := p.Data.(*model.DeviceClassificationUserDataType)
+			// the event carries the payload object of the write that was applied
+			d, _ := p.Data.(*model.LoadControlLimitListDataType)
 			w.mu.Lock()
-			var c uint64
-			if d != nil && d.UserLabel != nil {
-				c, _ = strconv.ParseUint(strings.TrimPrefix(string(*d.UserLabel), "w"), 10, 64)
-			}
-			if wr := w.writes[[2]uint64{uint64(i), c}]; wr != nil {
-				wr.outcomes = append(wr.outcomes, aprOutcome{"applied", w.step, time.Since(wr.t0)})
+			if wr := w.byData[d]; wr != nil && wr.p == i {
+				if wr.dropped {
+					wr.afterDrop = append(wr.afterDrop, "applied")
+				} else {
+					wr.outcomes = append(wr.outcomes, aprOutcome{"applied", w.step, time.Since(wr.t0)})
+				}
 			} else {
-				w.strange = append(w.strange, fmt.Sprintf("data change event on feature %d for unknown write %d", i, c))
+				w.strange = append(w.strange, fmt.Sprintf("data change event on feature %d for a write no callback was shown", i))
 			}
 			w.mu.Unlock()
 		}
@@ -158,68 +180,125 @@ func (w *aprWorld) HandleEvent(p api.EventPayload) {
 
 func aprDev(p int) string { return fmt.Sprintf("dev%d", p) }
 
+// aprBase: the limits every feature starts with (all changeable): 1..3 are written to, 11..22 are there to be deleted
+func aprBase() *model.LoadControlLimitListDataType {
+	l := &model.LoadControlLimitListDataType{}
+	ids := []uint{1, 2, 3}
+	for i := uint(11); i <= 22; i++ {
+		ids = append(ids, i)
+	}
+	for _, id := range ids {
+		l.LoadControlLimitData = append(l.LoadControlLimitData, model.LoadControlLimitDataType{
+			LimitId: util.Ptr(model.LoadControlLimitIdType(id)), IsLimitChangeable: util.Ptr(true), IsLimitActive: util.Ptr(false), Value: model.NewScaledNumberType(float64(id))})
+	}
+	return l
+}
+
 func newAprWorld(nCb, nPeers int) *aprWorld {
-	w := &aprWorld{id: fmt.Sprintf("apr%d", atomic.AddInt64(&aprWorldSeq, 1)), nCb: nCb, nPeers: nPeers, writes: map[[2]uint64]*aprWrite{}}
+	w := &aprWorld{id: fmt.Sprintf("apr%d", atomic.AddInt64(&aprWorldSeq, 1)), nCb: nCb, nPeers: nPeers, byData: map[*model.LoadControlLimitListDataType]*aprWrite{}}
 	w.l = spine.NewDeviceLocal("b", "m", "s", "c", "HEMS", model.DeviceTypeTypeEnergyManagementSystem, model.NetworkManagementFeatureSetTypeSmart)
 	for p := 0; p < nPeers; p++ {
 		p := p
 		e := spine.NewEntityLocal(w.l, model.EntityTypeTypeCEM, spine.NewAddressEntityType([]uint{uint(p + 1)}), 10*time.Minute)
 		w.l.AddEntity(e)
-		f := e.GetOrAddFeature(model.FeatureTypeTypeDeviceClassification, model.RoleTypeServer)
-		f.AddFunctionType(model.FunctionTypeDeviceClassificationUserData, true, true)
+		f := e.GetOrAddFeature(model.FeatureTypeTypeLoadControl, model.RoleTypeServer)
+		f.AddFunctionType(model.FunctionTypeLoadControlLimitListData, true, true)
+		f.SetData(model.FunctionTypeLoadControlLimitListData, aprBase())
 		f.SetWriteApprovalTimeout(aprTimeout)
 		w.f[p] = f
 		for i := 0; i < nCb; i++ {
 			i := i
 			_ = f.AddWriteApprovalCallback(func(m *api.Message) {
+				dig := w.digest(p) // the data as the callback finds it
 				w.mu.Lock()
 				defer w.mu.Unlock()
-				var c uint64
-				if m != nil && m.RequestHeader != nil && m.RequestHeader.MsgCounter != nil {
-					c = uint64(*m.RequestHeader.MsgCounter)
+				var wr *aprWrite
+				if m != nil {
+					wr = w.byData[m.Cmd.LoadControlLimitListData]
+					if wr == nil && m.RequestHeader != nil && m.RequestHeader.MsgCounter != nil {
+						// first presentation: the write of that counter on the connection the message came in on
+						for _, c := range w.conns {
+							if c.rdev == m.DeviceRemote {
+								wr = c.writes[uint64(*m.RequestHeader.MsgCounter)]
+							}
+						}
+						if wr != nil && wr.data == nil {
+							wr.data = m.Cmd.LoadControlLimitListData
+							w.byData[wr.data] = wr
+						}
+					}
 				}
-				wr := w.writes[[2]uint64{uint64(p), c}]
-				if wr == nil {
-					w.strange = append(w.strange, fmt.Sprintf("callback %d of feature %d invoked for unknown write %d", i, p, c))
+				if wr == nil || wr.p != p {
+					w.strange = append(w.strange, fmt.Sprintf("callback %d of feature %d invoked for a message that is no write of this history", i, p))
 					return
 				}
 				wr.presented[i]++
 				if wr.msgs[i] == nil {
 					wr.msgs[i] = m
+					wr.digAt[i] = dig
 				}
 			})
 		}
 	}
 	_ = spine.VerifSubscribeCore(w)
 	for p := 0; p < nPeers; p++ {
-		ski := w.id + "-" + strconv.Itoa(p)
-		w.wr[p] = &aprWriter{}
-		w.l.SetupRemoteDevice(ski, w.wr[p])
-		w.rdev[p] = w.l.RemoteDeviceForSki(ski)
-		dev := aprDev(p)
-		ft, role := model.FeatureTypeTypeDeviceClassification, model.RoleTypeClient
-		nt, nr := model.FeatureTypeTypeNodeManagement, model.RoleTypeSpecial
-		dd := &model.NodeManagementDetailedDiscoveryDataType{
-			DeviceInformation: &model.NodeManagementDetailedDiscoveryDeviceInformationType{Description: &model.NetworkManagementDeviceDescriptionDataType{DeviceAddress: &model.DeviceAddressType{Device: util.Ptr(model.AddressDeviceType(dev))}}},
-			EntityInformation: []model.NodeManagementDetailedDiscoveryEntityInformationType{
-				{Description: &model.NetworkManagementEntityDescriptionDataType{EntityAddress: &model.EntityAddressType{Entity: spine.NewAddressEntityType([]uint{0})}, EntityType: util.Ptr(model.EntityTypeTypeDeviceInformation)}},
-				{Description: &model.NetworkManagementEntityDescriptionDataType{EntityAddress: &model.EntityAddressType{Entity: spine.NewAddressEntityType([]uint{1})}, EntityType: util.Ptr(model.EntityTypeTypeEVSE)}}},
-			FeatureInformation: []model.NodeManagementDetailedDiscoveryFeatureInformationType{
-				{Description: &model.NetworkManagementFeatureDescriptionDataType{FeatureAddress: h.FA(dev, []uint{0}, 0), FeatureType: &nt, Role: &nr}},
-				{Description: &model.NetworkManagementFeatureDescriptionDataType{FeatureAddress: h.FA(dev, []uint{1}, 1), FeatureType: &ft, Role: &role}}},
-		}
-		cl := model.CmdClassifierTypeReply
-		w.inject(p, model.DatagramType{Header: model.HeaderType{AddressSource: h.FA(dev, []uint{0}, 0), AddressDestination: h.FA("HEMS", []uint{0}, 0), MsgCounter: util.Ptr(model.MsgCounterType(1)), MsgCounterReference: util.Ptr(model.MsgCounterType(1)), CmdClassifier: &cl}, Payload: model.PayloadType{Cmd: []model.CmdType{{NodeManagementDetailedDiscoveryData: dd}}}})
-		cc := model.CmdClassifierTypeCall
-		w.inject(p, model.DatagramType{Header: model.HeaderType{AddressSource: h.FA(dev, []uint{0}, 0), AddressDestination: h.FA("HEMS", []uint{0}, 0), MsgCounter: util.Ptr(model.MsgCounterType(2)), CmdClassifier: &cc}, Payload: model.PayloadType{Cmd: []model.CmdType{{NodeManagementBindingRequestCall: spine.NewNodeManagementBindingRequestCallType(h.FA(dev, []uint{1}, 1), w.f[p].Address(), model.FeatureTypeTypeDeviceClassification)}}}})
-		w.wr[p].take()
+		w.connect(p)
 	}
 	return w
 }
 
+func (w *aprWorld) ski(p int) string { return w.id + "-" + strconv.Itoa(p) }
+
+// connect: the peer (same SKI) connects - again -, announces its load control client and binds it to its feature
+func (w *aprWorld) connect(p int) {
+	c := &aprConn{p: p, wr: &aprWriter{}, writes: map[uint64]*aprWrite{}}
+	w.l.SetupRemoteDevice(w.ski(p), c.wr)
+	c.rdev = w.l.RemoteDeviceForSki(w.ski(p))
+	w.mu.Lock()
+	if w.conn[p] != nil {
+		c.epoch = w.conn[p].epoch + 1
+	}
+	w.conn[p] = c
+	w.conns = append(w.conns, c)
+	w.mu.Unlock()
+	dev := aprDev(p)
+	ft, role := model.FeatureTypeTypeLoadControl, model.RoleTypeClient
+	nt, nr := model.FeatureTypeTypeNodeManagement, model.RoleTypeSpecial
+	dd := &model.NodeManagementDetailedDiscoveryDataType{
+		DeviceInformation: &model.NodeManagementDetailedDiscoveryDeviceInformationType{Description: &model.NetworkManagementDeviceDescriptionDataType{DeviceAddress: &model.DeviceAddressType{Device: util.Ptr(model.AddressDeviceType(dev))}}},
+		EntityInformation: []model.NodeManagementDetailedDiscoveryEntityInformationType{
+			{Description: &model.NetworkManagementEntityDescriptionDataType{EntityAddress: &model.EntityAddressType{Entity: spine.NewAddressEntityType([]uint{0})}, EntityType: util.Ptr(model.EntityTypeTypeDeviceInformation)}},
+			{Description: &model.NetworkManagementEntityDescriptionDataType{EntityAddress: &model.EntityAddressType{Entity: spine.NewAddressEntityType([]uint{1})}, EntityType: util.Ptr(model.EntityTypeTypeEVSE)}}},
+		FeatureInformation: []model.NodeManagementDetailedDiscoveryFeatureInformationType{
+			{Description: &model.NetworkManagementFeatureDescriptionDataType{FeatureAddress: h.FA(dev, []uint{0}, 0), FeatureType: &nt, Role: &nr}},
+			{Description: &model.NetworkManagementFeatureDescriptionDataType{FeatureAddress: h.FA(dev, []uint{1}, 1), FeatureType: &ft, Role: &role}}},
+	}
+	cl := model.CmdClassifierTypeReply
+	w.inject(p, model.DatagramType{Header: model.HeaderType{AddressSource: h.FA(dev, []uint{0}, 0), AddressDestination: h.FA("HEMS", []uint{0}, 0), MsgCounter: util.Ptr(model.MsgCounterType(1)), MsgCounterReference: util.Ptr(model.MsgCounterType(1)), CmdClassifier: &cl}, Payload: model.PayloadType{Cmd: []model.CmdType{{NodeManagementDetailedDiscoveryData: dd}}}})
+	cc := model.CmdClassifierTypeCall
+	w.inject(p, model.DatagramType{Header: model.HeaderType{AddressSource: h.FA(dev, []uint{0}, 0), AddressDestination: h.FA("HEMS", []uint{0}, 0), MsgCounter: util.Ptr(model.MsgCounterType(2)), CmdClassifier: &cc}, Payload: model.PayloadType{Cmd: []model.CmdType{{NodeManagementBindingRequestCall: spine.NewNodeManagementBindingRequestCallType(h.FA(dev, []uint{1}, 1), w.f[p].Address(), model.FeatureTypeTypeLoadControl)}}}})
+	c.wr.take()
+}
+
+// drop: the connection is removed; what was pending on it is marked (nothing may happen to it any more)
+func (w *aprWorld) drop(p int) {
+	w.l.RemoveRemoteDeviceConnection(w.ski(p))
+	w.mu.Lock()
+	defer w.mu.Unlock()
+	c := w.conn[p]
+	c.closed = true
+	for _, wr := range c.writes {
+		if !wr.resolved() {
+			wr.dropped = true
+		}
+		wr.gone = true
+		wr.expired = true // its timer is gone with the connection: nothing to wait for
+	}
+}
+
 func (w *aprWorld) inject(p int, d model.DatagramType) {
 	b, _ := json.Marshal(model.Datagram{Datagram: d})
-	_, _ = w.rdev[p].HandleSpineMesssage(b)
+	_, _ = w.conn[p].rdev.HandleSpineMesssage(b)
 }
 
 func (w *aprWorld) bound(p int) bool {
@@ -235,18 +314,20 @@ func (w *aprWorld) close() {
 	_ = spine.VerifUnsubscribeCore(w.l)
 }
 
-func (w *aprWorld) label(p int) string {
-	d, _ := w.f[p].DataCopy(model.FunctionTypeDeviceClassificationUserData).(*model.DeviceClassificationUserDataType)
-	if d == nil || d.UserLabel == nil {
-		return ""
-	}
-	return string(*d.UserLabel)
+// digest: the feature's data as text
+func (w *aprWorld) digest(p int) string {
+	b, _ := json.Marshal(w.f[p].DataCopy(model.FunctionTypeLoadControlLimitListData))
+	return string(b)
 }
 
 // scan attributes the result datagrams written since the last call to their writes.
 func (w *aprWorld) scan() {
-	for p := 0; p < w.nPeers; p++ {
-		for _, m := range w.wr[p].take() {
+	w.mu.Lock()
+	conns := append([]*aprConn{}, w.conns...)
+	w.mu.Unlock()
+	for _, cn := range conns {
+		p := cn.p
+		for _, m := range cn.wr.take() {
 			var d model.Datagram
 			if err := json.Unmarshal(m.b, &d); err != nil || len(d.Datagram.Payload.Cmd) == 0 {
 				continue
@@ -257,9 +338,14 @@ func (w *aprWorld) scan() {
 			}
 			ref := uint64(*d.Datagram.Header.MsgCounterReference)
 			w.mu.Lock()
-			wr := w.writes[[2]uint64{uint64(p), ref}]
+			wr := cn.writes[ref]
 			if wr == nil {
-				w.strange = append(w.strange, fmt.Sprintf("result on connection %d references %d, which is no write of that peer", p, ref))
+				w.strange = append(w.strange, fmt.Sprintf("result on connection %d of peer %d references %d, which is no write sent on that connection", cn.epoch, p, ref))
+				w.mu.Unlock()
+				continue
+			}
+			if wr.dropped {
+				wr.afterDrop = append(wr.afterDrop, "result")
 				w.mu.Unlock()
 				continue
 			}
@@ -298,6 +384,7 @@ type aprResult struct {
 	timedOut  int
 	nWrites   int
 	races     int
+	shapes    map[string]int
 }
 
 func (res *aprResult) fail(key string, detail string) {
@@ -327,6 +414,8 @@ type aprRun struct {
 	res   *aprResult
 	looks map[int]*aprLook
 	opN   int
+
+	deletes int // delete-with-selector writes so far (each removes another item)
 }
 
 func aprTokens(s string) []string {
@@ -367,6 +456,9 @@ func (x *aprRun) observe(about *aprWrite, extra ...string) string {
 // compare asks the model the given lines and compares the union of its answers with the observation.
 func (x *aprRun) compare(op string, kind string, impl string, lines ...string) bool {
 	x.res.evals = append(x.res.evals, kind)
+	if os.Getenv("APR_DEBUG") != "" {
+		fmt.Printf("APR %s %-28s impl=%q model-lines=%v driver=%v\n", time.Now().Format("05.000"), op, impl, lines, x.d != nil)
+	}
 	if x.d == nil {
 		return true
 	}
@@ -419,7 +511,7 @@ func (x *aprRun) expire(wr *aprWrite, inserted bool) bool {
 func (x *aprRun) syncTimeout(wr *aprWrite) bool {
 	x.w.scan()
 	x.w.mu.Lock()
-	need := wr.timeoutAt != 0 && !wr.expired
+	need := wr.timeoutAt != 0 && !wr.expired && !wr.gone
 	x.w.mu.Unlock()
 	if need {
 		return x.expire(wr, true)
@@ -457,6 +549,75 @@ func (x *aprRun) anotherTimedOut(wr *aprWrite) bool {
 	return false
 }
 
+// aprCmd: the payload of a write of the given shape (the shapes of C04's quantifier); tag makes the value unique.
+//
+//	full  the whole list, no filter            pid   partial, item addressed by its identifier
+//	psel  partial with a selector              pall  partial, no identifier (all items)
+//	dsel  delete with a selector               dele  delete with selector and elements (one field of one item)
+func (x *aprRun) aprCmd(shape string, tag int) (model.CmdType, bool) {
+	fn := model.FunctionTypeLoadControlLimitListData
+	val := model.NewScaledNumberType(float64(1000 + tag))
+	part := func() model.FilterType {
+		return model.FilterType{CmdControl: &model.CmdControlType{Partial: &model.ElementTagType{}}}
+	}
+	del := func() model.FilterType {
+		return model.FilterType{CmdControl: &model.CmdControlType{Delete: &model.ElementTagType{}}}
+	}
+	sel := func(id uint) *model.LoadControlLimitListDataSelectorsType {
+		return &model.LoadControlLimitListDataSelectorsType{LimitId: util.Ptr(model.LoadControlLimitIdType(id))}
+	}
+	switch shape {
+	case "full":
+		l := aprBase()
+		l.LoadControlLimitData[0].Value = val
+		return model.CmdType{LoadControlLimitListData: l}, true
+	case "pid":
+		return model.CmdType{Function: &fn, Filter: []model.FilterType{part()}, LoadControlLimitListData: &model.LoadControlLimitListDataType{LoadControlLimitData: []model.LoadControlLimitDataType{{LimitId: util.Ptr(model.LoadControlLimitIdType(2)), Value: val}}}}, true
+	case "psel":
+		ft := part()
+		ft.LoadControlLimitListDataSelectors = sel(2)
+		return model.CmdType{Function: &fn, Filter: []model.FilterType{ft}, LoadControlLimitListData: &model.LoadControlLimitListDataType{LoadControlLimitData: []model.LoadControlLimitDataType{{Value: val}}}}, true
+	case "pall":
+		return model.CmdType{Function: &fn, Filter: []model.FilterType{part()}, LoadControlLimitListData: &model.LoadControlLimitListDataType{LoadControlLimitData: []model.LoadControlLimitDataType{{Value: val}}}}, true
+	case "dsel":
+		ft := del()
+		ft.LoadControlLimitListDataSelectors = sel(uint(11 + x.deletes%12))
+		x.deletes++
+		return model.CmdType{Function: &fn, Filter: []model.FilterType{ft}, LoadControlLimitListData: &model.LoadControlLimitListDataType{}}, true
+	case "dele":
+		ft := del()
+		ft.LoadControlLimitListDataSelectors = sel(3)
+		ft.LoadControlLimitDataElements = &model.LoadControlLimitDataElementsType{IsLimitActive: &model.ElementTagType{}}
+		return model.CmdType{Function: &fn, Filter: []model.FilterType{ft}, LoadControlLimitListData: &model.LoadControlLimitListDataType{}}, true
+	}
+	return model.CmdType{}, false
+}
+
+var aprShapes = []string{"full", "pid", "psel", "pall", "dsel", "dele"}
+
+// aprDiff: where two digests differ (short)
+func aprDiff(a, b string) string {
+	i := 0
+	for i < len(a) && i < len(b) && a[i] == b[i] {
+		i++
+	}
+	lo := i - 40
+	if lo < 0 {
+		lo = 0
+	}
+	cut := func(s string) string {
+		hi := i + 60
+		if hi > len(s) {
+			hi = len(s)
+		}
+		if lo > len(s) {
+			return ""
+		}
+		return s[lo:hi]
+	}
+	return fmt.Sprintf("before ...%s... after ...%s...", cut(a), cut(b))
+}
+
 func aprErr(approve bool) model.ErrorType {
 	if approve {
 		return model.ErrorType{}
@@ -478,29 +639,77 @@ func (x *aprRun) exec(op string) bool {
 	find := func(p, c int) *aprWrite {
 		w.mu.Lock()
 		defer w.mu.Unlock()
-		return w.writes[[2]uint64{uint64(p), uint64(c)}]
+		if w.conn[p] == nil || w.conn[p].closed {
+			return nil
+		}
+		return w.conn[p].writes[uint64(c)]
 	}
 	switch f[0] {
+	case "drop":
+		// the peer's connection is removed (RemoveRemoteDeviceConnection): pending approvals go with it
+		p := n(1) % w.nPeers
+		if w.conn[p] == nil || w.conn[p].closed {
+			return true
+		}
+		// a timer that fires while the connection is being removed is a race the harness does not decide (C10): every
+		// write still pending is either safely before its deadline or its timeout is awaited first
+		for _, wr := range append([]*aprWrite{}, w.order...) {
+			if wr.p != p || wr.gone {
+				continue
+			}
+			if _, ok := x.timely(wr); !ok {
+				return false
+			}
+		}
+		x.res.executed = append(x.res.executed, fmt.Sprintf("drop %d", p))
+		w.step++
+		w.scan()
+		w.drop(p)
+		return x.compare(op, "drop", x.observe(nil), fmt.Sprintf("drop %d", p))
+	case "reconnect":
+		// the same peer (same SKI) connects again: a fresh connection, its message counters start over
+		p := n(1) % w.nPeers
+		if w.conn[p] != nil && !w.conn[p].closed {
+			return true
+		}
+		x.res.executed = append(x.res.executed, fmt.Sprintf("reconnect %d", p))
+		w.connect(p)
+		if !w.bound(p) {
+			x.res.abandoned = "world: binding not established after reconnect"
+			return false
+		}
+		x.res.evals = append(x.res.evals, "reconnect")
+		return true
 	case "write":
+		// write <p> <c> <ack> [shape]
 		p, c, ack := n(1)%w.nPeers, n(2), n(3) == 1
-		if find(p, c) != nil || c == 0 {
+		shape := "full"
+		if len(f) > 4 {
+			shape = f[4]
+		}
+		if w.conn[p] == nil || w.conn[p].closed || find(p, c) != nil || c == 0 {
 			return true // counters are unique per connection (precondition)
 		}
-		x.res.executed = append(x.res.executed, fmt.Sprintf("write %d %d %d", p, c, h.B2i(ack)))
+		cmd, okShape := x.aprCmd(shape, c)
+		if !okShape {
+			return true
+		}
+		x.res.executed = append(x.res.executed, fmt.Sprintf("write %d %d %d %s", p, c, h.B2i(ack), shape))
 		w.step++
-		wr := &aprWrite{p: p, c: uint64(c), ack: ack, msgs: map[int]*api.Message{}, presented: map[int]int{}}
+		wr := &aprWrite{p: p, c: uint64(c), epoch: w.conn[p].epoch, shape: shape, ack: ack, msgs: map[int]*api.Message{}, presented: map[int]int{}, digAt: map[int]string{}}
+		before := w.digest(p)
+		wr.digBefore = before
 		w.mu.Lock()
-		w.writes[[2]uint64{uint64(p), uint64(c)}] = wr
+		w.conn[p].writes[uint64(c)] = wr
 		w.order = append(w.order, wr)
 		w.mu.Unlock()
-		before := w.label(p)
 		wc := model.CmdClassifierTypeWrite
 		hd := model.HeaderType{AddressSource: h.FA(aprDev(p), []uint{1}, 1), AddressDestination: w.f[p].Address(), MsgCounter: util.Ptr(model.MsgCounterType(c)), CmdClassifier: &wc}
 		if ack {
 			hd.AckRequest = util.Ptr(true)
 		}
 		wr.t0 = time.Now()
-		w.inject(p, model.DatagramType{Header: hd, Payload: model.PayloadType{Cmd: []model.CmdType{{DeviceClassificationUserData: &model.DeviceClassificationUserDataType{UserLabel: util.Ptr(model.LabelType(wr.label()))}}}}})
+		w.inject(p, model.DatagramType{Header: hd, Payload: model.PayloadType{Cmd: []model.CmdType{cmd}}})
 		// the callbacks are goroutines: wait (bounded) until each has been invoked
 		bound := time.Duration(atomic.LoadInt64(&aprPresentBound))
 		for t0 := time.Now(); ; {
@@ -523,8 +732,8 @@ func (x *aprRun) exec(op string) bool {
 			pres += k
 		}
 		w.mu.Unlock()
-		if after := w.label(p); after != before {
-			x.res.fail("C12/data-changed-before-approval", fmt.Sprintf("the data of feature %d changed from %q to %q when write %d arrived", p, before, after, c))
+		if after := w.digest(p); after != before {
+			x.res.fail("C12/data-changed-before-approval", fmt.Sprintf("the data of feature %d changed when %s arrived, before any verdict: %s", p, wr.name(), aprDiff(before, after)))
 		}
 		x.res.nWrites++
 		return x.compare(op, "write", x.observe(wr, fmt.Sprintf("pres=%d", pres)), fmt.Sprintf("arrive %d %d", p, c))
@@ -560,7 +769,7 @@ func (x *aprRun) exec(op string) bool {
 			return false
 		}
 		w.step++
-		before := w.label(p)
+		before := w.digest(p)
 		if f[0] == "verdict" {
 			x.opN++
 			id := 1000 + x.opN
@@ -625,6 +834,11 @@ func (x *aprRun) exec(op string) bool {
 				raceWith = "timeout"
 			}
 		}
+		if wr.gone {
+			// the connection was removed after the lookup: the write is gone, time no longer matters
+			resolved = true
+			raceWith = "drop"
+		}
 		w.mu.Unlock()
 		intime := false
 		if !resolved {
@@ -642,7 +856,7 @@ func (x *aprRun) exec(op string) bool {
 		delete(x.looks, id)
 		x.res.executed = append(x.res.executed, fmt.Sprintf("commit %d", id))
 		w.step++
-		before := w.label(wr.p)
+		before := w.digest(wr.p)
 		lk.task.Release()
 		if _, done, ok := lk.task.Wait(5 * time.Second); !ok || !done {
 			x.res.abandoned = "a released verdict did not return"
@@ -694,8 +908,15 @@ func (x *aprRun) exec(op string) bool {
 		// a verdict must not receive the timeout's result on top. (Automatic at the end of a history, not recorded.)
 		for _, wr := range append([]*aprWrite{}, w.order...) {
 			w.mu.Lock()
-			told := wr.expired
+			told, dropped := wr.expired, wr.dropped
 			w.mu.Unlock()
+			if dropped {
+				// nothing may happen to it any more: look past the instant at which its timer would have fired
+				if rem := time.Until(wr.t0.Add(aprTimeout + 25*time.Millisecond)); rem > 0 {
+					time.Sleep(rem)
+				}
+				continue
+			}
 			if told {
 				continue
 			}
@@ -711,7 +932,7 @@ func (x *aprRun) exec(op string) bool {
 	case "expireall":
 		for _, wr := range append([]*aprWrite{}, w.order...) {
 			w.mu.Lock()
-			skip := wr.resolved() && (wr.timeoutAt == 0 || wr.expired)
+			skip := wr.gone || (wr.resolved() && (wr.timeoutAt == 0 || wr.expired))
 			w.mu.Unlock()
 			if skip {
 				continue
@@ -727,7 +948,7 @@ func (x *aprRun) exec(op string) bool {
 
 // checkData: the data of a feature may change only by the application of a write, and then to that write's payload.
 func (x *aprRun) checkData(p int, before string, wr *aprWrite) {
-	after := x.w.label(p)
+	after := x.w.digest(p)
 	x.w.mu.Lock()
 	defer x.w.mu.Unlock()
 	appliedNow := false
@@ -736,11 +957,8 @@ func (x *aprRun) checkData(p int, before string, wr *aprWrite) {
 			appliedNow = true
 		}
 	}
-	switch {
-	case appliedNow && after != wr.label():
-		x.res.fail("C12/applied-data-wrong", fmt.Sprintf("write %d was applied but the data reads %q", wr.c, after))
-	case !appliedNow && after != before:
-		x.res.fail("C12/data-changed-without-apply", fmt.Sprintf("the data changed from %q to %q at a verdict on write %d that did not apply it", before, after, wr.c))
+	if !appliedNow && after != before {
+		x.res.fail("C12/data-changed-without-apply", fmt.Sprintf("the data changed at a step on %s that did not apply it: %s", wr.name(), aprDiff(before, after)))
 	}
 }
 
@@ -759,9 +977,13 @@ func (x *aprRun) spec() {
 		for i := 0; i < w.nCb; i++ {
 			switch k := wr.presented[i]; {
 			case k == 0:
-				res.fail("C12/not-presented-to-every-callback", fmt.Sprintf("write %d of peer %d was never presented to callback %d of %d", wr.c, wr.p, i, w.nCb))
+				res.fail("C12/not-presented-to-every-callback", fmt.Sprintf("%s was never presented to callback %d of %d", wr.name(), i, w.nCb))
 			case k > 1:
-				res.fail("C12/presented-more-than-once", fmt.Sprintf("write %d of peer %d was presented %d times to callback %d", wr.c, wr.p, k, i))
+				res.fail("C12/presented-more-than-once", fmt.Sprintf("%s was presented %d times to callback %d", wr.name(), k, i))
+			}
+			// unchanged until approved by all: what the callback found is what was there before the write came in
+			if d, ok := wr.digAt[i]; ok && d != wr.digBefore {
+				res.fail("C12/data-changed-before-approval", fmt.Sprintf("when %s was presented to callback %d the data of the feature had already changed: %s", wr.name(), i, aprDiff(wr.digBefore, d)))
 			}
 		}
 		// what the statement demands, from this write's own verdicts and its own timeout only
@@ -786,6 +1008,19 @@ func (x *aprRun) spec() {
 			if len(approvals) == w.nCb {
 				expected = "applied"
 			}
+		}
+		staleFromDrop := false
+		for _, o := range w.order {
+			if o != wr && o.p == wr.p && o.c == wr.c && o.epoch < wr.epoch {
+				for _, v := range o.verdicts {
+					if v.raceWith == "drop" {
+						staleFromDrop = true
+					}
+				}
+			}
+		}
+		if wr.dropped && expected == "terr" {
+			expected = "nothing (connection removed while pending)"
 		}
 		if expected == "applied" {
 			// shape of the tally-reset defect: an approval of another write of the same peer fell between this
@@ -823,8 +1058,13 @@ func (x *aprRun) spec() {
 			}
 		}
 		got := strings.Join(kinds, "+")
-		what := fmt.Sprintf("write %d of peer %d (%d callbacks, verdicts %s): expected %s, observed [%s], %d success results, ack requested %v", wr.c, wr.p, w.nCb, aprVerdictText(wr.verdicts), expected, got, wr.successes, wr.ack)
+		what := fmt.Sprintf("%s (%d callbacks, verdicts %s): expected %s, observed [%s], %d success results, ack requested %v", wr.name(), w.nCb, aprVerdictText(wr.verdicts), expected, got, wr.successes, wr.ack)
 		switch {
+		case wr.dropped:
+			// the connection went away while the write was pending: nothing may be applied or answered afterwards
+			if len(wr.afterDrop) > 0 {
+				res.fail("C12/outcome-after-disconnect", what+fmt.Sprintf("; after the connection was removed: %v", wr.afterDrop))
+			}
 		case applied+errs == 0:
 			res.fail("C12/no-outcome", what)
 		case applied+errs > 1:
@@ -844,6 +1084,8 @@ func (x *aprRun) spec() {
 			res.fail("C12/approved-write-not-applied", what)
 		case expected == "derr" && got == "applied":
 			res.fail("C12/denied-write-applied", what)
+		case expected != "applied" && applied == 1 && errs == 0 && staleFromDrop:
+			res.fail(aprKeyStale, what+"; on the peer's earlier connection a verdict for the same message counter was committed after the connection had been removed: its approval was counted for this write")
 		case expected == "terr" && got == "applied":
 			res.fail("C12/applied-without-unanimous-approval-in-time", what)
 		case expected == "terr" && got == "derr":
@@ -862,12 +1104,13 @@ func (x *aprRun) spec() {
 			res.fail("C12/timeout-early", what+fmt.Sprintf("; the timeout result was written %v after the write was injected (timeout %v)", wr.timeoutAt, aprTimeout))
 		}
 		// generator statistics come from what the statement demands, not from what the code did
+		res.shapes[wr.shape]++
 		switch expected {
 		case "applied":
 			res.applied++
 		case "derr":
 			res.denied++
-		default:
+		case "terr":
 			res.timedOut++
 		}
 	}
@@ -890,7 +1133,7 @@ func aprVerdictText(vs []aprVerdict) string {
 
 // runAprHistory executes one op list in a fresh world. ops[0] is `cfg <nCb> <nPeers>`.
 func runAprHistory(d *h.Driver, ops []string) *aprResult {
-	res := &aprResult{}
+	res := &aprResult{shapes: map[string]int{}}
 	if len(ops) == 0 {
 		return res
 	}
@@ -994,7 +1237,7 @@ func genAprHistory(rng *rand.Rand) []string {
 			ctr++
 			p, c := rng.Intn(nPeers), ctr
 			wi := len(first)
-			first = append(first, aprEvt{op: fmt.Sprintf("write %d %d %d", p, c, rng.Intn(2))})
+			first = append(first, aprEvt{op: fmt.Sprintf("write %d %d %d %s", p, c, rng.Intn(2), aprShapes[rng.Intn(len(aprShapes))])})
 			if i > 0 && rng.Intn(3) > 0 {
 				first[wi].after = []int{wi - 1} // most writes arrive before the verdicts start
 			}
@@ -1049,7 +1292,7 @@ func genAprStaggered(rng *rand.Rand) []string {
 		if i > 0 {
 			ops = append(ops, fmt.Sprintf("wait %d", 40+rng.Intn(41)))
 		}
-		ops = append(ops, fmt.Sprintf("write %d %d %d", w.p, w.c, rng.Intn(2)))
+		ops = append(ops, fmt.Sprintf("write %d %d %d %s", w.p, w.c, rng.Intn(2), aprShapes[rng.Intn(len(aprShapes))]))
 		var early []string
 		for _, cb := range rng.Perm(nCb) {
 			x := rng.Intn(100)
@@ -1078,6 +1321,85 @@ func genAprStaggered(rng *rand.Rand) []string {
 		if i+1 < len(ws) {
 			ops = append(ops, ws[i+1].later...)
 		}
+	}
+	return append(ops, "expireall")
+}
+
+// genAprReconnect: state across connections. On the first connection writes collect partial approvals; some time
+// out, some are still pending, a verdict may be past its lookup when the connection is removed; the peer connects
+// again (same SKI), its counters start over, and the SAME counters come again with verdicts of their own (typically
+// one approval and one denial, or too few approvals): a write instance must be judged by its own verdicts only.
+func genAprReconnect(rng *rand.Rand) []string {
+	nCb, nPeers := 2+rng.Intn(2), 1+rng.Intn(2)
+	ops := []string{fmt.Sprintf("cfg %d %d", nCb, nPeers)}
+	p := rng.Intn(nPeers)
+	nW := 1 + rng.Intn(3)
+	id := 0
+	shape := func() string { return aprShapes[rng.Intn(len(aprShapes))] }
+	var inflight []string
+	for i := 0; i < nW; i++ {
+		c := 11 + i
+		ops = append(ops, fmt.Sprintf("write %d %d %d %s", p, c, rng.Intn(2), shape()))
+		// some approvals, never all
+		k := rng.Intn(nCb)
+		for _, cb := range rng.Perm(nCb)[:k] {
+			if rng.Intn(4) == 0 {
+				id++
+				ops = append(ops, fmt.Sprintf("look %d %d %d %d 1", id, p, c, cb))
+				inflight = append(inflight, fmt.Sprintf("commit %d", id))
+			} else {
+				ops = append(ops, fmt.Sprintf("verdict %d %d %d 1", p, c, cb))
+			}
+		}
+	}
+	if nPeers == 2 && rng.Intn(2) == 0 {
+		// the other peer has a write pending across the first peer's reconnect: it must not notice
+		ops = append(ops, fmt.Sprintf("write %d 11 1 %s", 1-p, shape()), fmt.Sprintf("verdict %d 11 0 1", 1-p))
+	}
+	switch rng.Intn(3) {
+	case 0:
+		ops = append(ops, "expireall") // everything on the first connection times out first
+	case 1:
+		ops = append(ops, fmt.Sprintf("expire %d 11", p))
+	}
+	var late []string
+	for _, cm := range inflight {
+		if rng.Intn(2) == 0 {
+			ops = append(ops, cm)
+		} else {
+			late = append(late, cm) // committed after the connection is gone
+		}
+	}
+	// (a verdict of the old connection is committed before the reused counter arrives: what it does to a NEW write
+	// of the same counter depends on timer identity, which the model does not carry - not explored)
+	ops = append(ops, fmt.Sprintf("drop %d", p))
+	if rng.Intn(2) == 0 {
+		ops = append(ops, late...)
+		late = nil
+	}
+	ops = append(ops, fmt.Sprintf("reconnect %d", p))
+	ops = append(ops, late...)
+	for i := 0; i < nW; i++ {
+		c := 11 + i
+		ops = append(ops, fmt.Sprintf("write %d %d %d %s", p, c, rng.Intn(2), shape()))
+		order := rng.Perm(nCb)
+		switch rng.Intn(4) {
+		case 0: // one approval, one denial
+			ops = append(ops, fmt.Sprintf("verdict %d %d %d 1", p, c, order[0]), fmt.Sprintf("verdict %d %d %d 0", p, c, order[1]))
+		case 1: // one approval short
+			for _, cb := range order[:nCb-1] {
+				ops = append(ops, fmt.Sprintf("verdict %d %d %d 1", p, c, cb))
+			}
+		case 2: // unanimous
+			for _, cb := range order {
+				ops = append(ops, fmt.Sprintf("verdict %d %d %d 1", p, c, cb))
+			}
+		default: // a single approval
+			ops = append(ops, fmt.Sprintf("verdict %d %d %d 1", p, c, order[0]))
+		}
+	}
+	if nPeers == 2 {
+		ops = append(ops, fmt.Sprintf("verdict %d 11 1 1", 1-p))
 	}
 	return append(ops, "expireall")
 }
@@ -1199,8 +1521,12 @@ var (
 	aprWitnessRaceV = []string{"cfg 2 1", "write 0 1 1", "look 10 0 1 0 0", "look 11 0 1 1 0", "commit 10", "commit 11", "expireall"}
 )
 
+// a verdict past its lookup when the connection is removed, committed afterwards; the counter is reused
+var aprWitnessStale = []string{"cfg 2 1", "write 0 11 1 pid", "look 1 0 11 0 1", "drop 0", "commit 1", "reconnect 0", "write 0 11 1 pid", "verdict 0 11 1 1", "expireall"}
+
 func aprCorpus() [][]string {
 	return [][]string{
+		aprWitnessStale,
 		aprWitnessTally, aprWitnessRaceT, aprWitnessRaceV,
 		{"cfg 1 1", "write 0 1 1", "verdict 0 1 0 1"},
 		{"cfg 1 1", "write 0 1 0", "verdict 0 1 0 1"},
@@ -1219,6 +1545,16 @@ func aprCorpus() [][]string {
 		{"cfg 2 1", "write 0 1 1", "wait 70", "write 0 2 1", "verdict 0 2 0 1", "expire 0 1", "verdict 0 2 1 1", "expireall"},
 		{"cfg 3 2", "write 0 1 0", "verdict 0 1 0 1", "wait 60", "write 1 2 1", "verdict 1 2 2 1", "verdict 1 2 0 1", "expire 0 1", "verdict 1 2 1 1", "expireall"},
 		{"cfg 2 1", "write 0 1 1", "verdict 0 1 0 1", "wait 50", "write 0 2 0", "wait 30", "write 0 3 1", "verdict 0 3 1 1", "expire 0 1", "verdict 0 3 0 1", "verdict 0 2 0 0", "expireall"},
+		// across connections: write 11 collects one approval and times out; the peer disconnects and connects again
+		// and reuses the counter: one approval and one denial must reject the new write
+		{"cfg 2 1", "write 0 11 1 pid", "verdict 0 11 0 1", "expireall", "drop 0", "reconnect 0", "write 0 11 1 pid", "verdict 0 11 1 1", "verdict 0 11 0 0", "expireall"},
+		{"cfg 3 1", "write 0 11 1 full", "verdict 0 11 0 1", "verdict 0 11 2 1", "drop 0", "reconnect 0", "write 0 11 0 psel", "verdict 0 11 1 1", "expireall"},
+		{"cfg 2 2", "write 0 11 1 pall", "write 1 11 1 dsel", "verdict 0 11 0 1", "verdict 1 11 0 1", "drop 0", "reconnect 0", "write 0 11 1 dele", "verdict 1 11 1 1", "verdict 0 11 1 1", "expireall"},
+		// every write shape, denied and timed out: the data must be what it was
+		{"cfg 1 1", "write 0 11 1 full", "verdict 0 11 0 0", "write 0 12 1 pid", "verdict 0 12 0 0", "write 0 13 1 psel", "verdict 0 13 0 0", "write 0 14 1 pall", "verdict 0 14 0 0", "write 0 15 1 dsel", "verdict 0 15 0 0", "write 0 16 1 dele", "verdict 0 16 0 0"},
+		{"cfg 2 1", "write 0 11 0 psel", "write 0 12 1 dele", "write 0 13 1 pall", "verdict 0 11 0 1", "verdict 0 12 1 1", "expireall"},
+		// ... and approved: applied
+		{"cfg 1 1", "write 0 11 1 full", "verdict 0 11 0 1", "write 0 12 1 pid", "verdict 0 12 0 1", "write 0 13 1 psel", "verdict 0 13 0 1", "write 0 14 1 pall", "verdict 0 14 0 1", "write 0 15 1 dsel", "verdict 0 15 0 1", "write 0 16 1 dele", "verdict 0 16 0 1", "write 0 17 0 dsel", "verdict 0 17 0 1"},
 		// a write that timed out leaves its tally behind; the next write must not inherit it
 		{"cfg 2 1", "write 0 1 1", "verdict 0 1 0 1", "expireall", "write 0 2 1", "verdict 0 2 0 1", "verdict 0 2 1 1"},
 	}
@@ -1333,6 +1669,8 @@ func TestApproval(t *testing.T) {
 		for i := 0; i < hist; i++ {
 			if i%4 == 3 {
 				l = append(l, genAprStaggered(rng))
+			} else if i%4 == 1 {
+				l = append(l, genAprReconnect(rng))
 			} else {
 				l = append(l, genAprHistory(rng))
 			}
